@@ -5,7 +5,8 @@
 //!   `honest <seed> <rA> <rB> | <ta> | <tb> | <bookA> | <bookB>`
 //!       both sides are the real implementation, connected by two mpsc channels whose sinks log
 //!       every message (in causal order: single-threaded runtime, strictly alternating protocol).
-//!   `alice <seed> <r> | <topics> | <book> | <script>`   /   `bob ...`
+//!   `alice <seed> <r> <sink> | <topics> | <book> | <script>`   /   `bob ...`
+//!       (`<sink>` = `-` or the number of messages after which the peer drops its receiver)
 //!       one real side against a scripted peer; `<script>` is the sequence of items the real side
 //!       finds on its stream, after which the stream is closed.
 //!
@@ -371,7 +372,7 @@ fn build_word(w: &World, s: &str, sa: &[u8; 32], sb: &[u8; 32]) -> Topic {
     }
 }
 
-async fn run_script(w: &World, real_is_alice: bool, r: bool, topics: &[u64], book: &[Entry], script: Vec<Item>) -> String {
+async fn run_script(w: &World, real_is_alice: bool, r: bool, sink: Option<usize>, topics: &[u64], book: &[Entry], script: Vec<Item>) -> String {
     let (me, remote) = if real_is_alice { (0, 1) } else { (1, 0) };
     let proto = make_proto(w, me, remote, r, topics, book).await;
     // make sure every transport mentioned by the script exists in the table
@@ -382,37 +383,63 @@ async fn run_script(w: &World, real_is_alice: bool, r: bool, topics: &[u64], boo
             }
         }
     }
+    // In this mode the log holds what the peer actually *received* (a send into a closed sink is
+    // not a message on the wire).
     let log: Arc<Mutex<Vec<Logged>>> = Arc::new(Mutex::new(vec![]));
-    let (real_tx, mut peer_rx) = mpsc::channel::<Msg>(16);
+    let (real_tx, peer_rx) = mpsc::channel::<Msg>(16);
     let (mut peer_tx, real_rx) = mpsc::channel::<Result<Msg, ()>>(16);
-    let lr = log.clone();
     let dir = if real_is_alice { 'a' } else { 'b' };
     let real = async move {
-        let mut tx = real_tx.with(move |m: Msg| {
-            log_msg(&lr, dir, &m);
-            futures_util::future::ready(Ok::<Msg, mpsc::SendError>(m))
-        });
+        let mut tx = real_tx;
         let mut rx = real_rx;
         if real_is_alice { proto.alice(&mut tx, &mut rx).await } else { proto.bob(&mut tx, &mut rx).await }
     };
     let peer_half = w.peer_half();
+    let lp = log.clone();
     let peer = async move {
+        let mut peer_rx = Some(peer_rx);
+        let mut received = 0usize;
         let mut remote_half: Option<[u8; 32]> = None;
         let mut first_sent_is_s1: Option<bool> = None;
-        for it in script {
+        // Read messages from the real side until `n` have arrived (or it hung up).
+        macro_rules! read_until {
+            ($n:expr) => {
+                while received < $n {
+                    let Some(rx) = peer_rx.as_mut() else { break };
+                    match rx.next().await {
+                        Some(m) => {
+                            match &m {
+                                PsiHashMessage::AliceSaltHalf { alice_salt_half } if remote_half.is_none() => remote_half = Some(*alice_salt_half),
+                                PsiHashMessage::BobSaltHalfAndHashedData { bob_salt_half, .. } if remote_half.is_none() => remote_half = Some(*bob_salt_half),
+                                _ => {}
+                            }
+                            log_msg(&lp, dir, &m);
+                            received += 1;
+                        }
+                        None => break,
+                    }
+                }
+            };
+        }
+        // The receiver is dropped after `k` messages, at the moment the real side cannot have
+        // sent more: alice's (j+1)-th send follows her reading item j-1, bob's follows item j.
+        let close_at: Option<usize> = sink.map(|k| if real_is_alice { k.saturating_sub(1) } else { k });
+        let mut closed = false;
+        let n_items = script.len();
+        for (idx, it) in script.into_iter().enumerate() {
+            if let (Some(k), Some(at)) = (sink, close_at) {
+                if !closed && idx == at {
+                    read_until!(k);
+                    peer_rx = None;
+                    closed = true;
+                }
+            }
             let needs = matches!(it, Item::S2(_) | Item::H3(_));
             // The real alice always opens with her half; the real bob answers with his half only
             // if the first thing he read was S1 (otherwise he has already failed).
             let will_come = if real_is_alice { true } else { first_sent_is_s1 == Some(true) };
-            if needs && remote_half.is_none() && will_come {
-                while remote_half.is_none() {
-                    match peer_rx.next().await {
-                        Some(PsiHashMessage::AliceSaltHalf { alice_salt_half }) => remote_half = Some(alice_salt_half),
-                        Some(PsiHashMessage::BobSaltHalfAndHashedData { bob_salt_half, .. }) => remote_half = Some(bob_salt_half),
-                        Some(_) => {}
-                        None => break,
-                    }
-                }
+            if needs && remote_half.is_none() && will_come && !closed {
+                read_until!(1);
             }
             let rh = remote_half.unwrap_or([0; 32]);
             let (sa, sb) = if real_is_alice { (rh, peer_half) } else { (peer_half, rh) };
@@ -428,10 +455,18 @@ async fn run_script(w: &World, real_is_alice: bool, r: bool, topics: &[u64], boo
             };
             let _ = peer_tx.send(m).await;
         }
+        if let (Some(k), Some(at)) = (sink, close_at) {
+            if !closed && at >= n_items {
+                read_until!(k);
+                peer_rx = None;
+            }
+        }
         drop(peer_tx);
-        while let Some(_m) = peer_rx.next().await {}
+        read_until!(usize::MAX);
     };
-    let (res, ()): (Res, ()) = futures_util::future::join(real, peer).await;
+    // the peer is polled first, so a receiver that is to be closed before the first message is closed
+    // before the real side gets to send it
+    let ((), res): ((), Res) = futures_util::future::join(peer, real).await;
     let log = log.lock().unwrap();
     let (tr, leaks) = render_log(w, &log, Some((if real_is_alice { 'b' } else { 'a' }, peer_half)));
     format!("{} | {} | leaks {}", w.result(&res), tr, leaks)
@@ -450,7 +485,10 @@ fn main() {
                     let (ra, rb) = (head[2] == "1", head[3] == "1");
                     run_honest(&w, ra, rb, &parse_csv(f[1]), &parse_csv(f[2]), &parse_book(f[3]), &parse_book(f[4])).await
                 }
-                "alice" | "bob" => run_script(&w, head[0] == "alice", head[2] == "1", &parse_csv(f[1]), &parse_book(f[2]), parse_script(f[3])).await,
+                "alice" | "bob" => {
+                    let sink = head.get(3).and_then(|x| x.parse::<usize>().ok());
+                    run_script(&w, head[0] == "alice", head[2] == "1", sink, &parse_csv(f[1]), &parse_book(f[2]), parse_script(f[3])).await
+                }
                 other => panic!("unknown mode {other}"),
             }
         };
